@@ -13,6 +13,17 @@ def payload(S, NL, kind):
     return bytes(b)
 
 
+class Pieces(io.RawIOBase):
+    """an unbuffered, seekable source that hands the compressed bytes out a few at a time (pipe, socket, throttled stream)"""
+    def __init__(self, data, piece): self.b = io.BytesIO(data); self.piece = piece
+    def readable(self): return True
+    def seekable(self): return True
+    def readinto(self, buf):
+        chunk = self.b.read(min(len(buf), self.piece)); buf[:len(chunk)] = chunk; return len(chunk)
+    def seek(self, *a): return self.b.seek(*a)
+    def tell(self): return self.b.tell()
+
+
 def main():
     job = json.load(open(sys.argv[1]))
     from joblib.compressor import BinaryZlibFile, BinaryGzipFile
@@ -23,7 +34,8 @@ def main():
         for level in job["levels"]:
             raw = zlib.compress(data, level) if cname == "zlib" else gzip.compress(data, compresslevel=level)
             for hi, hist in enumerate(job["hists"]):
-                f = cls[cname](io.BytesIO(raw), "rb"); ref = io.BytesIO(data); n += 1
+                src = io.BytesIO(raw) if hi % 3 != 1 else Pieces(raw, 3 + hi % 5)
+                f = cls[cname](src, "rb"); ref = io.BytesIO(data); n += 1
                 try:
                     for k, e in enumerate(hist):
                         op = e["op"]; exp = data[e["from"]:e["to"]]
